@@ -58,6 +58,9 @@ def base_shapes(tier):
         if i % (150 if q else 40) == 0:
             out.append({"cls": "ConvexPolygon", "poly": [list(p) for p in c]})
             out.append({"cls": "ConvexSpheropolygon", "poly": [list(p) for p in c], "r": 0.25})
+    # a general Polyhedron with NON-CONVEX faces (L-shaped caps given as single faces): centroid and is_inside are
+    # defined for it; relabelled by every cyclic shift of the cap lists (a reflex corner comes first for some)
+    out.append({"cls": "Polyhedron", "lprism": True, "pts": []})
     out += [{"cls": "Sphere", "axes": [0.3]}, {"cls": "Ellipsoid", "axes": [1.0, 2.0, 7.5]}, {"cls": "Circle", "axes": [2.0]}, {"cls": "Ellipse", "axes": [2.0, 0.3]}]
     return out
 
@@ -82,6 +85,10 @@ def cases(tier):
             if "axes" in b and pl["rot"] != "I":
                 continue  # curved shapes are axis-aligned by construction: only scale and shift act
             out.append({"base": b, "g": {"pl": pl}})
+        if b.get("lprism"):
+            for k in range(1, 6):
+                out.append({"base": b, "g": {"relabel": "shiftk", "k": k}})
+            continue
         if "pts" in b or "vox" in b or "poly" in b:
             for rl in (["perm"] if b["cls"].startswith("Convex") else ["shift", "relabel", "frev"] if b["cls"] == "Polyhedron" else ["shift"]):
                 out.append({"base": b, "g": {"relabel": rl}})
@@ -123,6 +130,14 @@ def build(b, pl, relabel=None, order=None):
             return S.ConvexPolygon(F.copy(), normal=nrm), F
         s = A.SCALES[pl["scale"]]
         return S.ConvexSpheropolygon(F.copy(), b["r"] * s, normal=nrm), F
+    if b.get("lprism"):
+        L2 = [(0, 0), (3, 0), (3, 1), (1, 1), (1, 2), (0, 2)]
+        P = [(x, y, 0) for x, y in L2] + [(x, y, 2) for x, y in L2]
+        kk = order if relabel == "shiftk" else 0
+        top, bot = [6 + i for i in range(6)], list(range(6))[::-1]
+        faces = [bot[kk:] + bot[:kk], top[kk:] + top[:kk]] + [[i, (i + 1) % 6, 6 + (i + 1) % 6, 6 + i] for i in range(6)]
+        F = A.apply_placement(pl, np.array(P, float))
+        return S.Polyhedron(F.copy(), [np.array(f) for f in faces]), F
     if "vox" in b:
         v = A.vox((2, 2, 2))[b["vox"]]
         P, faces = [tuple(p) for p in v["verts"]], [list(f) for f in v["faces"]]
@@ -235,7 +250,7 @@ def run_case(case):
         relabel = g.get("relabel")
         pl = g.get("pl", ident)
         try:
-            y, Fy = build(b, pl, relabel, g.get("order"))
+            y, Fy = build(b, pl, relabel, g.get("order") if relabel != "shiftk" else g.get("k"))
         except Exception as ex:
             rep.violation("covariance", cls, "__init__", "valid-shape-became-error:" + type(ex).__name__, case, "the base shape constructs, but its image under %s raises %r" % (g, ex))
             return rep
@@ -259,10 +274,10 @@ def run_case(case):
         py = {"points": s * (px["points"] @ R.T) + t, "q": (px["q"] @ R.T) / s, "angles": px.get("angles")}
         ox = e1.observe(x, px)
         oy = e1.observe(y, py)
-        three = hasattr(x, "volume") or not hasattr(x, "area")
-        ctx = {"dim": 3 if hasattr(x, "volume") else 2, "k": 5 if hasattr(x, "volume") else 4, "q2": py["q"], "R_is_identity": pl["rot"] == "I", "mass": None, "centroid": None}
+        three = hasattr(type(x), "volume") or not hasattr(type(x), "area")
+        ctx = {"dim": 3 if hasattr(type(x), "volume") else 2, "k": 5 if hasattr(type(x), "volume") else 4, "q2": py["q"], "R_is_identity": pl["rot"] == "I", "mass": None, "centroid": None}
         try:
-            ctx["mass"] = float(x.volume if hasattr(x, "volume") else x.area)
+            ctx["mass"] = float(x.volume if hasattr(type(x), "volume") else x.area)
             ctx["centroid"] = np.asarray(x.centroid, float)
         except Exception:
             pass
